@@ -884,12 +884,24 @@ def strip(o):
   return o
 
 
+def _sort_dicts(x):
+  """dict values in one canonical item order on both sides (a dict has no order; the model keeps the order written)"""
+  from encode import canon
+  if isinstance(x, dict):
+    if 'd' in x and isinstance(x['d'], list):
+      return dict(x, d=sorted(([_sort_dicts(k), _sort_dicts(v)] for k, v in x['d']), key=lambda kv: canon(kv[0])))
+    return {k: _sort_dicts(v) for k, v in x.items()}
+  if isinstance(x, list):
+    return [_sort_dicts(v) for v in x]
+  return x
+
+
 def compare(case, impl, model):
   a, b = impl['out'], model.get('out')
   if b is None:
     return f'driver error: {model}'
   for k, (x, y) in enumerate(zip(a, b)):
-    if not core.same(strip(x), y):
+    if not core.same(_sort_dicts(strip(x)), _sort_dicts(y)):
       op = {kk: vv for kk, vv in case['ops'][k].items() if kk not in ('sig', '_method_ops')}
       return f'op {k} {op}: impl {strip(x)} model {y}'
   return None
